@@ -304,3 +304,71 @@ def spec_strings(sx, B):
     """Engine B (CrossHair, z3 string theory): real parse_residue_spec on specifications whose molecule and residue names are
     arbitrary strings (any characters except '#' and '-', length <= 3): the parsed dictionary holds exactly the fields written."""
     raise NotImplementedError("run by pverif.chx")
+
+
+@condition("C18.molecule_sections",
+           anchors=["polyply.src.build_file_parser:BuildDirector._distance_restraints", "polyply.src.build_file_parser:BuildDirector._persistence_length",
+                    "polyply.src.build_file_parser:BuildDirector._molecule"],
+           rejects=(IOError,), must_cover=["distance restraint", "persistence", "two blocks"],
+           outside=["molecule indices above the bound"],
+           bounds={"quick": dict(hi=4), "thorough": dict(hi=4)})
+def molecule_sections(sx, B):
+    """Real read_build_file with [ distance_restraints ] and [ persistence_length ] lines inside one or two [ molecule ] blocks whose
+    index ranges are symbolic: the restraints are stored for exactly the molecules with the given name and an index in the
+    half-open range of their own block, with the distances, tolerances and residues as written; nothing is stored for others."""
+    hi = B["hi"]
+    blocks = []
+    nblocks = sx.sel("blocks", [1, 2])
+    lines = []
+    for k in range(nblocks):
+        name = sx.sel("molname%d" % k, ["P", "G"])
+        a = sx.int("start%d" % k, 0, hi)
+        b = sx.int("stop%d" % k, 1, hi + 1)
+        sx.assume(a < b)
+        a, b = int(a), int(b)
+        # molecule 2 is the one-residue solvent: it has no residue 3 to restrain (rejected by the parser)
+        sx.assume(not (a <= 2 < b), "index ranges of the generated build files do not contain the one-residue molecule")
+        tol = sx.sel("tolerance%d" % k, [None, 0.25])
+        pers = sx.sel("persistence%d" % k, [False, True])
+        blocks.append((name, a, b, tol, pers, k))
+        lines += ["[ molecule ]", "%s %d %d" % (name, a, b), "[ distance_restraints ]",
+                  "0 3 %d.5%s" % (k + 1, "" if tol is None else " %s" % tol)]
+        if pers:
+            lines += ["[ persistence_length ]", "WCM %d.0 0 3" % (k + 2)]
+    if nblocks == 2:
+        sx.cover("two blocks")
+    top = make_top()
+    # every selected molecule must exist and hold nodes 0 and 3 (P and G do); S has one residue only
+    read_build_file(lines, top, top.molecules)
+    sx.cover("distance restraint")
+    # applying them (real set_restraints): only molecules that carry the block's name may receive bounds
+    import polyply.src.restraints as restraints
+    from harness.C07 import _Eng
+    inter = {frozenset([x, y]): (0.5, 1.0) for x in "ABS" for y in "ABS"}
+    n2g, atypes = {}, []
+    for mi, m in enumerate(top.molecules):
+        for nd in m.nodes:
+            n2g[(mi, nd)] = len(atypes)
+            atypes.append(m.nodes[nd]["resname"])
+    eng = _Eng(None, n2g, None, inter, np.array(atypes))
+    applied_ok = True
+    try:
+        restraints.set_restraints(top, eng)
+    except (KeyError, IndexError, nx.NetworkXError, OSError):
+        applied_ok = False
+    if applied_ok:
+        for mi, m in enumerate(top.molecules):
+            has = any("distance_restraints" in m.nodes[nd] for nd in m.nodes)
+            should = any(name == m.mol_name and a <= mi < b for (name, a, b, tol, pers, k) in blocks)
+            sx.claim(has == should, "only molecules with the block's name and an index in its range receive distance bounds",
+                     lambda: "build file:\n%s\nmolecule %d (%s): restrained=%r expected %r" % ("\n".join(lines), mi, m.mol_name, has, should))
+    names_of = [m.mol_name for m in top.molecules]
+    want_p = [(name, float(k + 2), 0, 3, [i for i in range(a, b) if names_of[i] == name]) for (name, a, b, tol, pers, k) in blocks if pers]
+    got_p = [(None, float(s.lp), s.start, s.stop, [int(i) for i in s.mol_idxs]) for s in top.persistences]
+    if want_p:
+        sx.cover("persistence")
+    mismatch = any(names_of[i] != name for (name, a, b, tol, pers, k) in blocks if pers for i in range(a, b))
+    sx.tag("persistence_range_covers_other_name", 1 if mismatch else 0)
+    sx.claim([g[1:] for g in got_p] == [w[1:] for w in want_p],
+             "persistence-length specifications select the molecules with the block's name and an index in its own range",
+             lambda: "build file:\n%s\n%r expected %r" % ("\n".join(lines), got_p, want_p))
